@@ -127,6 +127,26 @@ def buildHandler (tiled : Bool) : Handler := fun j => do
 def handlers : List (String × Handler) := [
   ("build", buildHandler false),
   ("buildTiled", buildHandler true),
+  ("tpm", fun j => do
+    -- `buildTiled`, read every tile back, gather the total pixel matrix per segment (`assembleTPM`; -1 = nothing there)
+    let codec ← getCodec j
+    let tr ← getNat j "rows"
+    let tc ← getNat j "cols"
+    let R ← getNat j "R"
+    let C ← getNat j "C"
+    let t ← getType j
+    let segs ← getNatList j "segs"
+    let mfv ← getNat j "mfv"
+    let omt ← getBool j "omit"
+    let m ← getMask j
+    let r : Except ErrKind (List (List Int)) := do
+      let o ← buildTiled codec R C tr tc t segs mfv omt m
+      let out ← readBySource codec o (List.range (tilesAlong R tr * tilesAlong C tc)) .assertEmpty
+      pure ((List.range segs.length).map fun jj => (assembleTPM out R C tr tc jj).map fun v =>
+        match v with
+        | some x => (x : Int)
+        | none => -1)
+    pure (exceptToJson (fun l => Json.arr (l.map fun row => Json.arr (row.map fun (x : Int) => (x : Json)).toArray).toArray) r)),
   ("readDim", fun j => do
     let codec ← getCodec j
     let rows ← getNat j "rows"
